@@ -3,6 +3,7 @@ use internal_macros::EnumDebug;
 use std::error::Error;
 
 use super::{
+    encoding_rules::per_visible::per_visible_range_constraints,
     error::{GrammarError, GrammarErrorType},
     information_object::{InformationObjectFields, ObjectSet},
     ASN1Type, ASN1Value, IntegerType,
@@ -36,6 +37,28 @@ pub enum Constraint {
     Parameter(Vec<Parameter>),
     /// A ContentsConstraint as specified in X.682 11.
     Content(ContentConstraint),
+}
+
+/// Returns the [IntegerType] that holds every value permitted by the PER-visible
+/// effective range of `constraints`, i.e. the range that the bindings are annotated with.
+/// Serially applied constraints intersect, set operations are folded, and an
+/// extensible or half-open range yields [IntegerType::Unbounded].
+pub fn integer_type_of(constraints: &[Constraint]) -> IntegerType {
+    let Ok(range) = per_visible_range_constraints(true, constraints) else {
+        return IntegerType::Unbounded;
+    };
+    match (range.min::<i128>(), range.max::<i128>()) {
+        (Some(min), Some(max)) if !range.is_extensible() => Constraint::Subtype(ElementSetSpecs {
+            set: ElementOrSetOperation::Element(SubtypeElements::ValueRange {
+                min: Some(ASN1Value::Integer(min)),
+                max: Some(ASN1Value::Integer(max)),
+                extensible: false,
+            }),
+            extensible: false,
+        })
+        .integer_constraints(),
+        _ => IntegerType::Unbounded,
+    }
 }
 
 impl Constraint {
